@@ -61,7 +61,7 @@ package mhprimary
 // flushBlock (C01 mechanism 3, C07): a record is written at roll(length, fileNum): in the next
 // file at offset 0 when the current file has reached the limit, else at the current end; every
 // record therefore starts below the limit.
-//@ func (cp *MultihashPrimary) flushBlock(key []byte, value []byte) (work types.Work, err error)  property C01 C07
+//@ func (cp *MultihashPrimary) flushBlock(key []byte, value []byte) (work types.Work, err error)  property C01 C02 C07
 //@   holds cp.flushLock
 //@   preserves cp
 //@   requires len(key) + len(value) < (1 << 31)
@@ -109,7 +109,7 @@ package mhprimary
 // Put (C01 mechanism 3, C07): the location handed to the index is where flushBlock will write
 // the record: both use roll(cursor). The location decodes back to (file, offset), which needs
 // the record to start below the limit (roll guarantees it).
-//@ func (cp *MultihashPrimary) Put(key []byte, value []byte) (blk types.Block, err error)  property C01 C07
+//@ func (cp *MultihashPrimary) Put(key []byte, value []byte) (blk types.Block, err error)  property C01 C02 C07
 //@   define P0() = rollp(old(cp.recPos), old(cp.recFileNum), cp.maxFileSize)
 //@   define F0() = rollf(old(cp.recPos), old(cp.recFileNum), cp.maxFileSize)
 //@   preserves cp
